@@ -36,7 +36,9 @@ ASSUMPTIONS = ['the codec theorems (rule_roundtrip, policy_roundtrip) are about 
                'Policy subclasses with custom tags lose their class through SQL / Mongo / Redis-JSON by construction of '
                'those paths and are outside the domain']
 PATHS = ['json', 'pickle', 'sqlite', 'redis-json', 'redis-pickle', 'mongo', 'mongo40',
-         'sqlite+update', 'mongo+update', 'redis-json+update']
+         'sqlite+update', 'mongo+update', 'redis-json+update',
+         # read back as a candidate of a search (find_for_inquiry with a checker that selects by the inquiry)
+         'sqlite+find', 'sqlite-regex+find', 'mongo+find', 'mongo40+find', 'redis-json+find']
 
 
 def json_safe_rule(r):
@@ -96,8 +98,18 @@ def build_with_sharing(rng, p):
     return obj
 
 
-def through(path, obj):
+def through(path, obj, q=None, rng=None):
     """write the policy and read it back through one persistence path"""
+    if path.endswith('+find'):
+        st = stores.make_base(path.split('+')[0])
+        st.add(obj)
+        k = pick(rng, ['KX', 'KF', 'KR']) if obj.type == 1 else 'KU'
+        try:
+            found = [p for p in st.find_for_inquiry(q, polcase.make_checker(k)) if p.uid == obj.uid or p.uid == str(obj.uid)]
+        except Exception:
+            found = []          # a search that fails is C07's subject (the recorded Mongo >= 4.2 finding), not a read-back
+        # not among the candidates of this inquiry: nothing to compare on this path (C07 judges candidate sets)
+        return found[0] if found else st.get(obj.uid)
     if path == 'json':
         return Policy.from_json(obj.to_json())
     if path == 'pickle':
@@ -145,6 +157,18 @@ def aimed_case(rng):
     p = strip_unsafe(gen_policy(rng, uid, q0, kind, hit=True))
     p['effect'] = pick(rng, ['allow', 'allow', 'deny', 'ALLOW', 'permit'])
     p['desc'] = pick(rng, [None, 'd', 'Описание', ''])
+    if kind == 'rule' and rng.random() < 0.2:
+        # a regular-expression rule aimed at a text of the inquiry, with `.` in place of one of its characters
+        import re as _re
+        ctxq = q0['context'] if isinstance(q0['context'], dict) else {}
+        texts = [(k, v) for k, v in ctxq.items() if isinstance(v, str) and len(v) >= 2]
+        if not texts:
+            q0['context'] = dict(ctxq, note='ab:cd')
+            texts = [('note', 'ab:cd')]
+        key, text = pick(rng, texts)
+        i = rng.randrange(len(text))
+        pat = _re.escape(text[:i]) + pick(rng, ['.', '.', '.+', '.*', '[^x]']) + _re.escape(text[i + 1:]) + pick(rng, ['', '$'])
+        p['context'] = [(k2, r2) for k2, r2 in p['context'] if k2 != key] + [(key, ('regex', pat))]
     qs = [q0]
     for _ in range(6):
         m = dict(q0)
@@ -152,7 +176,44 @@ def aimed_case(rng):
         m[f] = mutate_value(rng, q0[f]) if f != 'context' else (mutate_value(rng, q0[f]) if isinstance(q0[f], dict) else {})
         qs.append(m)
     qs.append(gen_inquiry(rng))
+    if "('regex'" in repr(p):
+        # a regular-expression rule: values with a line break in place of one character (flags of a compiled pattern -
+        # DOTALL, MULTILINE - decide what `.`, `^`, `$` do there, and must survive the round trip with the pattern)
+        import re as _re
+        pats = _re.findall(r"\('regex', '((?:[^'\\\\]|\\\\.)*)'", repr(p))
+        wild = any(_re.search(r'(?<!\\\\)(?:\\\\\\\\)*[.^$]', x) for x in pats)
+        qs.extend(_newline_probes(rng, q0, every=wild))
     return p, qs
+
+
+def _newline_probes(rng, q0, n=4, every=False):
+    """every=True (a pattern with `.`, `^` or `$`): the line break at every position of every text of the inquiry"""
+    leaves = []
+    for f in ('resource', 'action', 'subject', 'context'):
+        v = q0[f]
+        if isinstance(v, str) and v:
+            leaves.append((f, None))
+        elif isinstance(v, dict):
+            leaves.extend((f, k) for k, x in v.items() if isinstance(x, str) and x)
+    out = []
+    if every:
+        plan = [(f, k, i) for f, k in leaves for i in range(len(q0[f] if k is None else q0[f][k]))][:40]
+    else:
+        plan = []
+        for _ in range(n if leaves else 0):
+            f, k = pick(rng, leaves)
+            plan.append((f, k, rng.randrange(len(q0[f] if k is None else q0[f][k]))))
+    for f, k, i in plan:
+        m = dict(q0)
+        text = q0[f] if k is None else q0[f][k]
+        new = text[:i] + '\n' + text[i + 1:]
+        if k is None:
+            m[f] = new
+        else:
+            m[f] = dict(q0[f])
+            m[f][k] = new
+        out.append(m)
+    return out
 
 
 def meaning(obj, qs_objs):
@@ -214,7 +275,7 @@ def run(ctx):
             out.count('path:' + path)
             desc = {'path': path, 'policy': repr(p), 'shared_objects': obj is not None}
             try:
-                back = through(path, obj)
+                back = through(path, obj, qobjs[0], rng)
             except (InvalidPatternError, re.error):
                 out.count('rejected-by-backend:' + path)      # a malformed element: SQL / Mongo refuse to store it (C08)
                 continue
@@ -255,7 +316,9 @@ def run(ctx):
                                  'resources, context) %r -> %r' % (k, qs[i % len(qobjs)], m0[i], m1[i]))
             if probs:
                 f = Failure('oracle', desc, probs, None, probs[0], 'Vakt.C09.policy_roundtrip_partial')
-                f.signature = ('uid-type:' if uid_only and len(probs) == 1 else 'meaning:') + path.split('+')[0]
+                base = path.split('+')[0]
+                base = 'sqlite' if base.startswith('sqlite') else base      # one storage class, one uid column
+                f.signature = ('uid-type:' if uid_only and len(probs) == 1 else 'meaning:') + base
                 out.failures.append(f)
         # a policy object that is written, changed in place (no attribute assignment) and written again: what is read
         # back must be the policy as it stood at the second write
